@@ -71,9 +71,44 @@ _CURSOR = dict(file='crates/oq3_lexer/src/cursor.rs', fn=None, whole_file=True, 
                bound='every string of at most 3 chars, each ASCII (NUL included) or a 2-byte UTF-8 char; one bump, then eat_while up to an ASCII stop char',
                claim='cursor.rs (copied whole): Cursor::{new,is_eof,first,second,bump,prev,pos_within_token,reset_pos_within_token,eat_while} agree with the rest / tok model the LEX unit trusts (chars decoded by hand, byte positions)',
                body="#[cfg(kani)]\nmod oq3_cursor_harness {\n    use super::*;\n    #[kani::proof]\n    #[kani::unwind(6)]\n    fn cursor_primitives_agree_with_the_model() {\n        let two: [bool; 3] = kani::any();\n        let n: usize = kani::any();\n        kani::assume(n <= 3);\n        let mut buf = [0u8; 6];\n        let mut len = 0usize;\n        let mut chars = ['\\0'; 3];\n        let mut k = 0;\n        while k < 3 {\n            if k < n {\n                if two[k] {\n                    let b0: u8 = kani::any();\n                    let b1: u8 = kani::any();\n                    kani::assume(0xC2 <= b0 && b0 <= 0xDF && 0x80 <= b1 && b1 <= 0xBF);\n                    buf[len] = b0;\n                    buf[len + 1] = b1;\n                    chars[k] = char::from_u32((((b0 & 0x1F) as u32) << 6) | ((b1 & 0x3F) as u32)).unwrap();\n                    len += 2;\n                } else {\n                    let b: u8 = kani::any();\n                    kani::assume(b < 128);\n                    buf[len] = b;\n                    chars[k] = b as char;\n                    len += 1;\n                }\n            }\n            k += 1;\n        }\n        let s = unsafe { std::str::from_utf8_unchecked(&buf[..len]) };\n        let mut c = Cursor::new(s);\n        assert!(c.is_eof() == (n == 0));\n        assert!(c.first() == if n >= 1 { chars[0] } else { '\\0' });\n        assert!(c.second() == if n >= 2 { chars[1] } else { '\\0' });\n        assert!(c.pos_within_token() == 0);\n        let b = c.bump();\n        assert!(b == if n >= 1 { Some(chars[0]) } else { None });\n        assert!(c.first() == if n >= 2 { chars[1] } else { '\\0' });\n        assert!(c.prev() == if cfg!(debug_assertions) && n >= 1 { chars[0] } else { '\\0' });\n        let w0 = if n >= 1 { if two[0] { 2 } else { 1 } } else { 0 };\n        assert!(c.pos_within_token() as usize == w0);\n        let stop: u8 = kani::any();\n        kani::assume(0 < stop && stop < 128);\n        c.eat_while(|ch| ch != stop as char);\n        let mut expect = w0;\n        let mut stopped = false;\n        let mut j = 1;\n        while j < 3 {\n            if j < n && !stopped {\n                if chars[j] == stop as char { stopped = true; } else { expect += if two[j] { 2 } else { 1 }; }\n            }\n            j += 1;\n        }\n        assert!(c.pos_within_token() as usize == expect);\n        assert!(c.is_eof() == !stopped);\n        c.reset_pos_within_token();\n        assert!(c.pos_within_token() == 0);\n    }\n}\n")
+_INT_SPLIT = dict(file='crates/oq3_syntax/src/ast/token_ext.rs', fn='IntNumber::{radix, split_into_parts}', harness='int_literal_splits_into_prefix_and_digits', unwind=7,
+    pieces=[('item', r'pub enum Radix\b'), ('item', r'impl Radix\b'), ('fn', 'impl ast::IntNumber', 'radix'), ('fn', 'impl ast::IntNumber', 'split_into_parts')],
+    layout="#[derive(Debug, PartialEq, Eq, Copy, Clone)]\n%s\n%s\npub struct IntNumber<'a> { t: &'a str }\nimpl<'a> IntNumber<'a> {\n    fn text(&self) -> &str { self.t }   // stand-in for the token text (rowan)\n    pub %s\n    pub %s\n}\n",
+    bound='every integer literal token without suffix: radix prefix none / 0b / 0o / 0x, then 1 to 3 characters, each a digit of the radix or (not first) `_`',
+    claim='token_ext.rs::IntNumber::split_into_parts cuts such a literal into its prefix, ALL of its digits and an empty suffix, and radix() is the radix of the prefix (so the width / register length / const value read from the literal is the number written)',
+    body="""#[cfg(kani)]
+#[kani::proof]
+#[kani::unwind(7)]
+fn int_literal_splits_into_prefix_and_digits() {
+    let rad: u8 = kani::any();
+    kani::assume(rad < 4);
+    let n: usize = kani::any();
+    kani::assume(1 <= n && n <= 3);
+    let d: [u8; 3] = kani::any();
+    let base: u8 = match rad { 0 => 10, 1 => 2, 2 => 8, _ => 16 };
+    let mut j = 0;
+    while j < 3 {
+        let c = d[j];
+        let v: u8 = if c.is_ascii_digit() { c - b'0' } else if b'a' <= c && c <= b'f' { c - b'a' + 10 } else if b'A' <= c && c <= b'F' { c - b'A' + 10 } else { 99 };
+        kani::assume((c == b'_' && j > 0) || v < base);
+        j += 1;
+    }
+    let buf: [u8; 5] = match rad { 0 => [d[0], d[1], d[2], 0, 0], 1 => [b'0', b'b', d[0], d[1], d[2]], 2 => [b'0', b'o', d[0], d[1], d[2]], _ => [b'0', b'x', d[0], d[1], d[2]] };
+    let plen = if rad == 0 { 0 } else { 2 };
+    let text = unsafe { std::str::from_utf8_unchecked(&buf[..plen + n]) };
+    let t = IntNumber { t: text };
+    let (p, digits, suffix) = t.split_into_parts();
+    assert!(p.len() == plen);
+    assert!(digits.len() == n);
+    assert!(suffix.len() == 0);
+    assert!(digits.as_bytes()[0] == d[0]);
+    assert!(t.radix() as u8 == base);
+}
+""")
 EXTRACTED = {
+    'C09': [_INT_SPLIT], 'C08': [_INT_SPLIT],
     'C03': [_PRAGMA_TEXT],
-    'C06': [_PRAGMA_TEXT, _PRAGMA_TEXT2],
+    'C06': [_PRAGMA_TEXT, _PRAGMA_TEXT2, _INT_SPLIT],
     'C14': [_CURSOR], 'C15': [_CURSOR], 'C11': [_CURSOR],
     'C01': [_CURSOR, dict(file='crates/oq3_syntax/src/validation.rs', fn='unquote', harness='unquote_never_panics', unwind=6,
                  bound='every text of at most 3 ASCII bytes, prefix_len <= 2, end delimiter `"` or `\'`',
@@ -113,6 +148,46 @@ def _extract_fn(path, name):
     return rf.src[m.start():e]
 
 
+def _extract_pieces(path, pieces):
+    """several items copied verbatim from one file: ('item', regex of the first line) -> the brace-matched item that starts there;
+    ('fn', impl header, name) -> that method of that impl block"""
+    from .rustsrc import RustFile
+    rf = RustFile(path)
+    out = []
+    for pc in pieces:
+        if pc[0] == 'item':
+            m = None
+            for mm in re.finditer(pc[1], rf.src):
+                if rf.code[mm.start()]:
+                    m = mm
+                    break
+            if m is None:
+                return None
+            b = rf.src.index('{', m.end() - 1)
+            out.append(rf.src[m.start():rf.match_brace(b)])
+        else:
+            hm = None
+            for mm in re.finditer(re.escape(pc[1]) + r'\s*\{', rf.src):
+                if rf.code[mm.start()]:
+                    hm = mm
+                    break
+            if hm is None:
+                return None
+            lo, hi = hm.end(), rf.match_brace(hm.end() - 1)
+            m = None
+            for mm in re.finditer(r'\bfn\s+' + re.escape(pc[2]) + r'\b', rf.src[lo:hi]):
+                if rf.code[lo + mm.start()]:
+                    m = mm
+                    break
+            if m is None:
+                return None
+            b = rf.src.index('{', lo + m.end())
+            while not rf.code[b]:
+                b = rf.src.index('{', b + 1)
+            out.append(pc[3] + rf.src[lo + m.start():rf.match_brace(b)] if len(pc) > 3 else rf.src[lo + m.start():rf.match_brace(b)])
+    return out
+
+
 def run_extracted(prop, scratch):
     out = []
     status = 0
@@ -123,6 +198,9 @@ def run_extracted(prop, scratch):
                 text = open(os.path.join(REPO, h['file'])).read()
             except OSError:
                 text = None
+        elif h.get('pieces'):
+            ps = _extract_pieces(os.path.join(REPO, h['file']), h['pieces'])
+            text = h['layout'] % tuple(ps) if ps is not None else None
         else:
             text = _extract_fn(os.path.join(REPO, h['file']), h['fn'])
         if text is None:
